@@ -72,14 +72,17 @@ def run(tier, seed):
     suites = [
         ('StringGrader', lambda **kw: sg.StringGrader(**kw),
          [{'expect': 'cat', 'grade_decimal': 1, 'msg': 'yes'}, {'expect': ('dog', 'wolf'), 'grade_decimal': 0.5, 'msg': 'close one'},
-          {'expect': 'dog', 'grade_decimal': 0.5, 'msg': 'c'}, {'expect': 'unicorn', 'grade_decimal': 0, 'msg': 'No!'}, {'expect': 'horse', 'grade_decimal': 0}],
+          {'expect': 'dog', 'grade_decimal': 0.5, 'msg': 'c'}, {'expect': 'unicorn', 'grade_decimal': 0, 'msg': 'No!'}, {'expect': 'horse', 'grade_decimal': 0},
+          # the same expected answer listed again with another credit / a longer message: the better one must win in either order
+          {'expect': 'dog', 'grade_decimal': 0.25, 'msg': 'a much longer message'}, {'expect': 'cat', 'grade_decimal': 1, 'msg': 'yes indeed'}],
          ['cat', 'dog', 'wolf', 'unicorn', 'horse', 'zebra']),
         ('FormulaGrader', lambda **kw: fg.FormulaGrader(variables=['x'], **kw),
          [{'expect': 'x+1', 'grade_decimal': 1}, {'expect': ('x', 'x+x-x'), 'grade_decimal': 0.5, 'msg': 'forgot 1'}, {'expect': 'x', 'grade_decimal': 0.25, 'msg': 'long long msg'},
           {'expect': '2*x', 'grade_decimal': 0, 'msg': 'doubled'}],
          ['x+1', 'x', '2*x', '3*x']),
         ('NumericalGrader', lambda **kw: fg.NumericalGrader(**kw),
-         [{'expect': '3', 'grade_decimal': 1}, {'expect': '4', 'grade_decimal': 0.5, 'msg': 'off by one'}, {'expect': ('4', '2+2'), 'grade_decimal': 0.5, 'msg': 'o'}],
+         [{'expect': '3', 'grade_decimal': 1}, {'expect': '4', 'grade_decimal': 0.5, 'msg': 'off by one'}, {'expect': ('4', '2+2'), 'grade_decimal': 0.5, 'msg': 'o'},
+          {'expect': '4', 'grade_decimal': 0.75, 'msg': 'x'}],
          ['3', '4', '5']),
     ]
     for name, mk, alts, inputs in suites:
@@ -124,6 +127,23 @@ def run(tier, seed):
                 t.ok('SingleListGrader alternatives', key)
             else:
                 t.fail('SingleListGrader alternatives', key, 'SingleListGrader alternatives %r input %r: grade %r expected %r' % ([a['expect'] for a in perm], inp, r['grade_decimal'], want))
+    # wrong_msg is written into the zero-grade result of THIS call only: graders whose check_response hands out a suppressed-error result
+    # (MatrixGrader, suppress_matrix_messages) must not see another grader's / an earlier call's wrong_msg, whatever the listing order
+    mgm = rtcheck.real_module('mitxgraders/formulagrader/matrixgrader.py')
+    alts2 = [{'expect': '[1, 2]', 'grade_decimal': 1, 'msg': 'right'}, {'expect': '[2, 1]', 'grade_decimal': 0, 'msg': 'swapped'}]
+    for rnd_no, wm in enumerate(['Try again!', '', 'Nope', '']):
+        for perm in itertools.permutations(alts2):
+            gm = mgm.MatrixGrader(answers=tuple(perm), max_array_dim=1, suppress_matrix_messages=True, wrong_msg=wm)
+            for inp, want_msg in (('[1, 2, 3]', wm), ('[2, 1]', 'swapped'), ('[1, 2] + 1', wm), ('[1, 2]', 'right')):
+                try:
+                    r = gm(None, inp)
+                    got = (r['grade_decimal'], r['msg'])
+                except Exception as e:
+                    got = (type(e).__name__, str(e)[:100])
+                want = (1 if inp == '[1, 2]' else 0, want_msg)
+                key = ('MatrixGrader suppressed', rnd_no, wm, tuple(a['expect'] for a in perm), inp)
+                (t.ok if got == want else t.fail)('MatrixGrader alternatives (suppressed errors)', key, *([] if got == want else [
+                    'MatrixGrader(wrong_msg=%r, suppress_matrix_messages=True) alternatives %r on %r: %r, expected %r' % (wm, [a['expect'] for a in perm], inp, got, want)]))
     return t.report(rule="random table-driven configurations (every listing order for <= 3 alternatives) + all 1-3 subsets/permutations of fixed alternative pools "
                          "for String/Formula/Numerical graders x inputs x wrong_msg; oracle = each alternative graded alone; every case is non-trivial; "
                          "distinct = distinct (suite, alternatives order, input) keys",
